@@ -315,5 +315,13 @@ M_PING = {
               "<PingSource as EventSource>::process_events (+closures)", "<Generic as EventSource>::process_events"], "all paths; every 64-bit counter value"),
 }
 
-PROPS["DEV"] = dict(level="proof", k=[], m=list(M_L.values()) + list(M_CH.values()) + list(M_PING.values()))
+M_EX = {
+    "process": M("exec_process", OB.ob_exec_process, OB.ob_exec_process.__doc__, ["<Executor<T> as EventSource>::process_events (+closure)"],
+                 "dequeue loop unrolled twice"),
+    "send": M("exec_send", OB.ob_exec_send, OB.ob_exec_send.__doc__, ["futures::Sender::send"], "all paths"),
+    "drop": M("exec_drop", OB.ob_exec_drop, OB.ob_exec_drop.__doc__, ["<Executor<T> as Drop>::drop", "Scheduler::schedule"], "loops unrolled twice"),
+    "stream": M("stream", OB.ob_stream, OB.ob_stream.__doc__, ["<StreamSource<S> as EventSource>::process_events (+closure)"], "poll loop unrolled twice"),
+}
+
+PROPS["DEV"] = dict(level="proof", k=[], m=list(M_EX.values()))
 
